@@ -143,6 +143,12 @@ Directed3 == IF MaxAlt >= 3
                ELSE {}
 Directed2 == {<<[leaf |-> a, mark |-> TRUE], [leaf |-> b, mark |-> FALSE]>> : a \in {1, 2, 4}, b \in {1, 2, 4}}
 
+\* one seeded sample per operand position (constant definitions: evaluated once, so a run is reproducible
+\* from its seed whatever the number of TLC workers)
+Sample1 == IF Sample = 0 THEN {} ELSE RandomSubset(Sample, Disjs)
+Sample2 == IF Sample = 0 THEN {} ELSE RandomSubset(Sample + 1, Disjs)
+Sample3 == IF Sample = 0 THEN {} ELSE RandomSubset(Sample + 2, Disjs)
+
 VARIABLES ds, res, pres
 vars == <<ds, res, pres>>
 
@@ -172,7 +178,7 @@ Init == ds = <<>> /\ res = None /\ pres = [i \in DOMAIN ProbeNames |-> None]
 Next ==
   /\ Len(ds) < MaxConj
   /\ \E d \in (IF Sample = 0 THEN Disjs
-              ELSE RandomSubset(Sample, Disjs) \cup (IF Len(ds) = 0 THEN Directed3 ELSE IF Len(ds) = 1 THEN Directed2 ELSE {})) :
+              ELSE IF Len(ds) = 0 THEN Sample1 \cup Directed3 ELSE IF Len(ds) = 1 THEN Sample2 \cup Directed2 ELSE Sample3) :
        LET nd == Append(ds, d) IN
        /\ ds' = nd /\ res' = OutcomeOf(AllAlts(nd))
        /\ pres' = [i \in DOMAIN ProbeNames |-> OutcomeOf(ProbeAlts(nd, i))]
